@@ -82,7 +82,8 @@ ASSUMPTIONS = [
     "of other side effects of those calls is decided by the oracle",
 ]
 TRUSTED = ["matplotlib Agg backend, lxml, protobuf runtime (used only to run the operations under test and to erase the date)"]
-REQUIRED_BUCKETS = ["dims:checked", "op:net_find", "op:pred_q", "op:state_q", "op:cycle_q", "op:shape_q", "op:interval_q", "op:sign_interp", "op:viz_util",
+REQUIRED_BUCKETS = ["traj:ks-unc-offcentre-queried", "problem-init:acceleration-unset", "problem-init:acceleration-set"] + ["drawn-light-on-incoming:" + d_ for d_ in
+                    ("ALL", "RIGHT", "STRAIGHT", "LEFT", "LEFT_STRAIGHT", "STRAIGHT_RIGHT", "LEFT_RIGHT")] + ["dims:checked", "op:net_find", "op:pred_q", "op:state_q", "op:cycle_q", "op:shape_q", "op:interval_q", "op:sign_interp", "op:viz_util",
                     "op:read_back", "op:write_x", "lanelet_q:merge_direct", "draw:reuse", "pre:translate", "pre:query", "pre:set_same_traj",
                     "pre:remove_readd", "pre:failed_add", "spec:areas", "spec:map_info", "spec:no-dynamic", "spec:id-0", "draw:speed-limit-sign-rendered", "draw-flag:draw_traffic_signs", "draw:signs", "op:reached_own", "traj:custom-full", "op:occ", "op:state", "op:occs", "op:find_pos", "op:light", "op:reached", "op:eq", "op:hash", "op:copy",
                     "op:deepcopy", "op:pickle", "op:draw", "op:write_xml", "op:write_pb", "op:occset",
@@ -94,6 +95,7 @@ WORKERS = {"quick": 1, "thorough": 8}
 
 # ------------------------------------------------------------------------------------------------ generators
 
+ALL_DIRECTIONS = ["ALL", "RIGHT", "STRAIGHT", "LEFT", "LEFT_STRAIGHT", "STRAIGHT_RIGHT", "LEFT_RIGHT"]
 STATE_CLASSES = ["ks", "pm", "extpm", "ks-unc", "custom-vvy", "custom-ori", "custom-bare", "custom-full"]
 
 
@@ -215,7 +217,7 @@ def gen_spec(r, tiny=False):
             ne = r.randint(1, 4)
             spec["lights"].append({"id": 400 + i, "cycle": [[r.randrange(5), r.randint(1, 6)] for _ in range(ne)],
                                    "offset": r.choice([0, 0, 2, 7]), "pos": [_f(r, 0, 60), _f(r, 0, 8)],
-                                   "active": r.random() < 0.8, "direction": r.choice(["ALL", "LEFT", "STRAIGHT"]),
+                                   "active": r.random() < 0.8, "direction": r.choice(ALL_DIRECTIONS),
                                    "cycle_active": r.random() < 0.8, "color": r.choice([None, None, [0, 3], [1]]),
                                    "shape": r.random() < 0.25,
                                    "lanelets": sorted(r.sample(lids, r.randint(1, min(2, len(lids)))))})
@@ -241,8 +243,11 @@ def gen_spec(r, tiny=False):
         a = [["position", ["arr", _f(r, 0, 60), _f(r, 0, 10)]], ["orientation", _f(r, -3, 3)]]
         if full or r.random() < 0.7:
             a.append(["velocity", _f(r, 0, 20)])
-        if full or r.random() < 0.3:
-            a.extend([["acceleration", _f(r, -2, 2)], ["yaw_rate", _f(r, -1, 1)], ["slip_angle", _f(r, -1, 1)]])
+        if full:
+            # a planning problem needs yaw_rate and slip_angle; `acceleration` is optional and stays None in half of them
+            a.extend(([["acceleration", _f(r, -2, 2)]] if r.random() < 0.5 else []) + [["yaw_rate", _f(r, -1, 1)], ["slip_angle", _f(r, -1, 1)]])
+        elif r.random() < 0.3:
+            a.extend([x for x in [["acceleration", _f(r, -2, 2)], ["yaw_rate", _f(r, -1, 1)], ["slip_angle", _f(r, -1, 1)]] if r.random() < 0.7])
         return {"cls": "InitialState", "t": t0, "attrs": a}
 
     spec["static"] = []
@@ -257,7 +262,8 @@ def gen_spec(r, tiny=False):
     for _ in range(r.choice([0, 1, 2, 2, 3]) if not tiny else r.choice([1, 1, 2])):
         t0 = r.choice([0, 0, 0, 1, 3])
         kind = r.choice(["traj", "traj", "traj", "traj", "set", "none"])
-        shape = gen_shape(r, ("rect", "rect", "circ", "poly", "group"), (0.0, 0.0))
+        # the obstacle shape lives in the local frame; its reference point need not be the origin
+        shape = gen_shape(r, ("rect", "rect", "circ", "poly", "group"), (0.0, 0.0) if r.random() < 0.6 else (r.choice([2.0, -1.5]), r.choice([1.0, 0.0, -0.5])))
         d = {"id": nid(), "type": r.choice(["CAR", "TRUCK", "BICYCLE", "PEDESTRIAN", "BUS"]), "shape": shape, "init": init_state(t0),
              "pred": None, "init_signal": gen_signal(r, t0) if r.random() < 0.4 else None,
              "signal_series": None, "center_ids": sorted(r.sample(lids, 1)) if lids and r.random() < 0.3 else None,
@@ -660,6 +666,41 @@ def gen_case(ctx, tiny=False, allow_draw=True, recipe=None):
                                                          ["occs", d["pred"]["t1"], None],
                                                          ["by_interval", [-10.0, 70.0], [-5.0, 15.0], d["pred"]["t1"]]]))
             return {"spec": spec, "ops": ops}
+        if isinstance(recipe, list) and recipe[0] == "inter":
+            lids = [l["id"] for l in spec["lanelets"]]
+            if len(lids) < 3:
+                continue
+            pick = r.sample(lids, min(4, len(lids)))
+            a, b, c = pick[0], pick[1], pick[2]
+            d = pick[3] if len(pick) > 3 else c
+            spec["intersections"] = [{"id": 500, "incomings": [
+                {"id": 510, "lanelets": [a], "right": [b], "straight": [c], "left": [d], "left_of": None},
+                {"id": 511, "lanelets": [b], "right": [], "straight": [a], "left": [c, d] if d != c else [c], "left_of": 510}],
+                "crossings": []}]
+            spec["lights"] = [{"id": 400, "cycle": [[r.randrange(4), r.randint(1, 4)] for _ in range(r.randint(1, 3))], "offset": r.choice([0, 2]),
+                               "pos": [_f(r, 0, 60), _f(r, 0, 8)], "active": True, "cycle_active": True, "color": None, "shape": False,
+                               "direction": recipe[1], "lanelets": [a]},
+                              {"id": 401, "cycle": [[3, 2], [0, 3]], "offset": 0, "pos": [_f(r, 0, 60), _f(r, 0, 8)], "active": r.random() < 0.7,
+                               "cycle_active": True, "color": None, "shape": False, "direction": r.choice(ALL_DIRECTIONS), "lanelets": [b]}]
+            ops = gen_ops(r, spec, allow_draw=False)
+            ops.insert(r.randint(0, len(ops)), gen_draw(r, ["scenario", "both", "network"]))
+            if r.random() < 0.5:
+                ops.insert(r.randint(0, len(ops)), ["viz_util", "colors", r.choice([0, 1, 3])])
+            return {"spec": spec, "ops": ops}
+        if recipe == "unc":
+            # uncertain trajectory states (position region / orientation interval) of an obstacle whose shape is off-centre, and the first
+            # evaluation of its occupancies
+            c = [d for d in spec["dynamic"] if d["pred"] and d["pred"]["kind"] == "traj" and d["pred"]["cls"] == "ks-unc"
+                 and d["shape"][0] in ("rect", "circ", "poly") and not (d["shape"][0] in ("rect", "circ") and d["shape"][-3 if d["shape"][0] == "rect" else -2] == 0.0
+                                                                         and d["shape"][-2 if d["shape"][0] == "rect" else -1] == 0.0)]
+            if not c:
+                continue
+            d = r.choice(c)
+            ops = gen_ops(r, spec, allow_draw=allow_draw)
+            ops.insert(0, r.choice([["occ", d["id"], d["pred"]["t1"] + r.randint(0, len(d["pred"]["states"]) - 1)], ["occset", d["id"]],
+                                    ["occs", d["pred"]["t1"], None], ["pred_q", d["id"], d["pred"]["t1"]]]))
+            case = {"spec": spec, "ops": ops, "tags": ["traj:ks-unc-offcentre-queried"]}
+            return case
         if recipe == "sign":
             # a real (non-virtual) speed-limit sign with a numeric value, and a rendering that shows traffic signs: through the
             # draw parameter (off by default) or by handing the signs to the renderer
@@ -2087,6 +2128,8 @@ def run_case(ctx, case, with_model=True, old_pb=False):
     apply_pre(twin[0], twin[1], pre)
     for x in pre:
         ctx.tag("pre:" + x[0])
+    for x in case.get("tags", []):
+        ctx.tag(x)
     _tag_spec(ctx, spec)
     ctx.case(case)
     I = Intern()
@@ -2138,6 +2181,11 @@ def run_case(ctx, case, with_model=True, old_pb=False):
         ctx.tag(f"export:{fmt}-{ref[fmt][0]}" + ("" if ref[fmt][0] == "ok" else ":" + ref[fmt][1]))
     for i, op in enumerate(ops):
         ctx.tag("op:" + op[0])
+        if (op[0] == "draw" and op[1]["what"] in ("scenario", "both", "network")) or (op[0] == "viz_util" and op[1] == "colors"):
+            inc = {l for x in spec["intersections"] for i_ in x["incomings"] for l in i_["lanelets"]}
+            for x in spec["lights"]:
+                if inc & set(x["lanelets"]):
+                    ctx.tag("drawn-light-on-incoming:" + x["direction"])
         if op[0] == "draw":
             ctx.tag("draw:" + op[1]["what"])
             for extra in ("reuse", "limits", "file", "focus", "video"):
@@ -2306,6 +2354,8 @@ def _canon_out(v):
 
 
 def _tag_spec(ctx, spec):
+    for p_ in spec["problems"]:
+        ctx.tag("problem-init:acceleration-" + ("set" if any(a[0] == "acceleration" for a in p_["init"]["attrs"]) else "unset"))
     if spec.get("areas"):
         ctx.tag("spec:areas")
     if spec.get("map_info"):
@@ -2350,6 +2400,10 @@ def run(ctx):
     n = ctx.n(110)
     for i in range(n):
         recipe = {1: "merge", 3: "sign", 6: "vvy", 8: "sign", 11: "tbl", 13: "reach", 16: "merge", 18: "reach"}.get(i % 20)
+        if i % 20 in (9, 19):
+            recipe = "unc"
+        if i % 10 == 4:
+            recipe = ["inter", ALL_DIRECTIONS[(i // 10) % len(ALL_DIRECTIONS)]]       # every direction in turn
         run_case(ctx, gen_case(ctx, tiny=(i % 4 == 3 and recipe is None), allow_draw=(i % 5 == 0), recipe=recipe))
 
 
